@@ -316,6 +316,7 @@ def check(chk: Check) -> None:
 
     _r4_r5(chk, R4, R5)
     _r7_memo(chk)
+    _r9_identity(chk)
 
 
 def _encl(F, m, node) -> str:
@@ -369,6 +370,85 @@ def _r7_memo(chk: Check) -> None:
                     'registry) at parse time stays in a cached tree, while an uncached parse reads it again at every call' % norm(node_)[:80])
     from . import numeric as N_
     N_.context_untouched(chk, R7)
+
+
+def _r9_identity(chk: Check) -> None:
+    """Two parses of one text give equal trees; with a cache they are one object, without they are two.  Code that asks for the
+    identity of an object (id(x), `a is b`) where trees flow behaves differently in the two cases."""
+    import ast as _ast
+    F = chk.facts
+    R9 = chk.rule('C17.R9', 'nothing depends on which object a tree is: in the modules of the parser class and of the node classes '
+                            'no id(...) outside a message, no `is` / `is not` between two values (tests against None, True, False, '
+                            '..., a class or a module-level sentinel are comparisons with a constant)', floor=1)
+    mods = {F.functions[PARSER + '.parse'].module.name}
+    for cls in om.op_classes(F):
+        ci = F.classes.get(cls)
+        if ci is not None:
+            mods.add(ci.module.name)
+    host_only = F.host_only_functions()
+    log_nodes = common.logger_call_nodes(F)
+    n_fun = 0
+    problems = []
+    for q, fi in sorted(F.functions.items()):
+        if fi.module.name not in mods or q in host_only or not isinstance(fi.node, (_ast.FunctionDef, _ast.Lambda)):
+            continue
+        n_fun += 1
+        parents = {}
+        for n in _ast.walk(fi.node):
+            for c in _ast.iter_child_nodes(n):
+                parents[c] = n
+
+        def in_message(n):
+            while n in parents:
+                n = parents[n]
+                if isinstance(n, (_ast.Raise, _ast.JoinedStr)):
+                    return True
+                if n in log_nodes:
+                    return True
+                if isinstance(n, (_ast.FunctionDef, _ast.Lambda)) and n is not fi.node:
+                    return False
+            return False
+
+        def constantish(e):
+            if isinstance(e, _ast.Constant):
+                return True
+            if isinstance(e, _ast.Call) and isinstance(e.func, _ast.Name) and e.func.id in ('type', 'bool'):
+                return True                     # a class / one of the two bool singletons
+            if isinstance(e, (_ast.Compare, _ast.BoolOp)) or (isinstance(e, _ast.UnaryOp) and isinstance(e.op, _ast.Not)):
+                return True
+            if isinstance(e, _ast.Attribute) and isinstance(e.value, (_ast.Name, _ast.Attribute)):
+                base = norm(e.value)
+                imp_b = fi.module.imports.get(base.split('.')[0])
+                if (fi.module.name + '.' + base) in F.classes or (imp_b and (imp_b in F.classes or imp_b + base[len(base.split('.')[0]):] in F.classes)):
+                    return True                 # a class attribute (enum member, class-level constant): one object per process
+            if isinstance(e, (_ast.Name, _ast.Attribute)):
+                name = norm(e)
+                qn = fi.module.name + '.' + name
+                imp0 = fi.module.imports.get(name.split('.')[0])
+                if qn in F.classes or (imp0 and (imp0 in F.classes or imp0 + name[len(name.split('.')[0]):] in F.classes)) or name in ('int', 'str', 'list', 'dict', 'bool', 'float', 'tuple', 'set', 'NotImplemented', 'Ellipsis'):
+                    return True
+                vals = fi.module.assigns.get(name, []) if isinstance(e, _ast.Name) else []
+                if len(vals) == 1 and isinstance(vals[0], _ast.Call) and isinstance(vals[0].func, _ast.Name) and vals[0].func.id == 'object':
+                    return True
+            return False
+        for n in _ast.walk(fi.node):
+            if isinstance(n, _ast.Call) and isinstance(n.func, _ast.Name) and n.func.id == 'id' and len(n.args) == 1 and not in_message(n):
+                problems.append(('%s :: `%s`' % (q, norm(n)), '%s:%d' % (fi.module.rel, n.lineno),
+                                 'the identity of an object is used as a value (a key, a comparand): two parses of one text give '
+                                 'equal trees, a parse cache gives the same tree twice - code keyed by identity tells them apart'))
+            if isinstance(n, _ast.Compare):
+                left = n.left
+                for op, right in zip(n.ops, n.comparators):
+                    if isinstance(op, (_ast.Is, _ast.IsNot)) and not constantish(left) and not constantish(right):
+                        problems.append(('%s :: `%s`' % (q, norm(n)), '%s:%d' % (fi.module.rel, n.lineno),
+                                         '`is` between two values: whether they are the same object depends on whether the tree came '
+                                         'out of the cache'))
+                    left = right
+    for cons, where, why in problems:
+        chk.bad(R9, cons, where, why)
+    chk.require(n_fun > 0, R9, 'identity-free modules', ', '.join(sorted(mods)),
+                '%d function(s) of %s scanned: %s' % (n_fun, ', '.join(sorted(mods)), 'no other use of object identity' if not problems else
+                                                     '%d use(s) of object identity' % len(problems)))
 
 
 def _r4_r5(chk: Check, R4: str, R5: str) -> None:
